@@ -27,3 +27,5 @@ FUNCTIONS = FUNCTIONS + [q for q in STRUCT if q not in FUNCTIONS]
 FUNCTIONS = FUNCTIONS + [M + 'match_contains']
 
 FUNCTIONS = FUNCTIONS + [q for q in KIDS if q not in FUNCTIONS]
+
+VALIDATION = [validate_bs4]
